@@ -393,7 +393,8 @@ def _emit_leading_comments(comments: list[str], indent: int = 0, strip_comments:
     if strip_comments or not comments:
         return []
     indent_str = "  " * indent
-    return [f"{indent_str}// {comment}" for comment in comments]
+    # an empty comment is written as a bare "//": canonical lines never end in a blank
+    return [f"{indent_str}// {comment}" if comment else f"{indent_str}//" for comment in comments]
 
 
 def _emit_trailing_comment(comment: str | None, strip_comments: bool = False) -> str:
@@ -423,7 +424,7 @@ def emit_comment(comment: Comment, indent: int = 0, format_options: FormatOption
         return ""
 
     indent_str = "  " * indent
-    return f"{indent_str}// {comment.text}"
+    return f"{indent_str}// {comment.text}" if comment.text else f"{indent_str}//"
 
 
 def emit_assignment(assignment: Assignment, indent: int = 0, format_options: FormatOptions | None = None) -> str:
